@@ -334,4 +334,423 @@ theorem autoCommitTake_spec (len thr : Nat) (ivs : List Interval) :
             · omega
             · exact hord' x hx
 
+/-! ### `try_auto_commit` -/
+
+theorem tryAutoCommit_noop {sh : Shared D L} (h : sh.com.len ≤ sh.options.autoCommitThreshold) :
+    Shared.tryAutoCommit env sh = .ok sh := by
+  unfold Shared.tryAutoCommit
+  simp only [h, if_true]
+
+/-- what `try_auto_commit` does when the buffer exceeds the threshold -/
+theorem tryAutoCommit_spec {sh sh' : Shared D L} (h : Shared.tryAutoCommit env sh = .ok sh')
+    (hlen : sh.options.autoCommitThreshold < sh.com.len) :
+    ∃ ivs k com, Shared.conversion env sh = .ok ivs ∧ k ≤ ivs.length ∧ (ivs = [] ∨ 0 < k) ∧
+      sh.com.removeFront (sumLen (ivs.take k)) = .ok com ∧
+      sh' = { sh with commitBuf := textOf (ivs.take k), com := com, last := .commit } ∧
+      sumLen (ivs.take k) ≤ sh.com.len ∧
+      (∀ j, j < k → sh.options.autoCommitThreshold < sh.com.len - sumLen (ivs.take j)) ∧
+      (k = ivs.length ∨ sh.com.len - sumLen (ivs.take k) ≤ sh.options.autoCommitThreshold) := by
+  unfold Shared.tryAutoCommit at h
+  simp only [Nat.not_le.mpr hlen, if_false] at h
+  split at h
+  · cases h
+  · cases h
+  · rename_i ivs hc
+    split at h
+    · rename_i buf remove ht
+      obtain ⟨k, hk, hpos, hb, hr, hle, hmin, hfin, _⟩ :=
+        autoCommitTake_spec sh.com.len sh.options.autoCommitThreshold ivs [] 0 buf remove (by omega) ht
+      simp only [List.nil_append, Nat.zero_add] at hb hr hmin
+      subst hb hr
+      split at h
+      · rename_i com hrf
+        injection h with h
+        exact ⟨ivs, k, com, hc, hk, hpos, hrf, h.symm, hle, hmin, hfin⟩
+      · cases h
+      · cases h
+    · cases h
+    · cases h
+
+/-! ### the commit buffer is written only on paths that report *commit* -/
+
+/-- how an arm of `Entering::next` started from `sh0` may leave the commit buffer: untouched unless it
+    reports *commit*; then either the pre-edit was empty and ONE character was committed (the
+    pre-edit stays as it was), or it is `SharedState::commit` of `sh0` (the whole buffer) — and the
+    latter only where `w` holds (`w` will be "the key is Enter") -/
+def CommitShape (w : Prop) (sh0 : Shared D L) (r : StepRes D L) : Prop :=
+  ∀ sh' t, r = .ok (sh', t) →
+    (t ≠ .spin .commit ∧ sh'.commitBuf = sh0.commitBuf) ∨
+    (t = .spin .commit ∧
+      ((sh0.com.isEmpty = true ∧ sh'.com = sh0.com ∧
+          ∃ ch, sh'.commitBuf = [ch] ∨ sh'.commitBuf = sh0.commitBuf ++ [ch]) ∨
+       (w ∧ Shared.commit env sh0 = .ok sh')))
+
+variable {w : Prop}
+
+/-- closes `CommitShape sh0 (.ok (x, t))` for a concrete non-commit transition `t` -/
+macro "cshape_leaf" : tactic =>
+  `(tactic| (intro sh' t h; injection h with h; injection h with h1 h2; subst h1 h2;
+             exact Or.inl ⟨(fun c => by cases c), by first | rfl | assumption⟩))
+
+theorem cshape_ite {sh0 : Shared D L} {c : Prop} [Decidable c] {a b : StepRes D L}
+    (h1 : CommitShape env w sh0 a) (h2 : CommitShape env w sh0 b) : CommitShape env w sh0 (if c then a else b) := by
+  split <;> assumption
+
+theorem cshape_panic (sh0 : Shared D L) (p : String) : CommitShape env w sh0 (.panic p) := by
+  intro sh' t h; cases h
+
+theorem cshape_fuel (sh0 : Shared D L) : CommitShape env w sh0 .outOfFuel := by
+  intro sh' t h; cases h
+
+theorem cshape_withCom_absorb (sh0 sh : Shared D L) (hb : sh.commitBuf = sh0.commitBuf) (r : Outcome CompEditor) :
+    CommitShape env w sh0 (withCom sh r fun sh => .ok (sh, .spin .absorb)) := by
+  unfold withCom
+  cases r with
+  | ok c => cshape_leaf
+  | panic p => exact cshape_panic env _ p
+  | outOfFuel => exact cshape_fuel env _
+
+theorem cshape_commitOrInsert (sh0 sh : Shared D L) (hc : sh.com = sh0.com) (hb : sh.commitBuf = sh0.commitBuf)
+    (ch : Nat) : CommitShape env w sh0 (commitOrInsert sh ch) := by
+  unfold commitOrInsert
+  split
+  · rename_i he
+    intro sh' t h; injection h with h; injection h with h1 h2; subst h1 h2
+    exact Or.inr ⟨rfl, Or.inl ⟨by rw [← hc]; exact he, hc, ch, Or.inl rfl⟩⟩
+  · exact cshape_withCom_absorb env _ _ hb _
+
+theorem cshape_inputChar (sh0 sh : Shared D L) (hc : sh.com = sh0.com) (hb : sh.commitBuf = sh0.commitBuf)
+    (ev : KeyEvent) : CommitShape env w sh0 (inputChar sh ev) := by
+  unfold inputChar fullOrPanic
+  repeat' split
+  all_goals first
+    | exact cshape_commitOrInsert env _ _ hc hb _
+    | exact cshape_panic env _ _
+
+theorem cshape_chineseFallback (sh0 sh : Shared D L) (hc : sh.com = sh0.com) (hb : sh.commitBuf = sh0.commitBuf)
+    (ev : KeyEvent) : CommitShape env w sh0 (chineseFallback sh ev) := by
+  unfold chineseFallback
+  repeat' split
+  all_goals first
+    | exact cshape_withCom_absorb env _ _ hb _
+    | exact cshape_inputChar env _ _ hc hb _
+    | cshape_leaf
+
+theorem cshape_newPhrase (sh0 sh : Shared D L) (hb : sh.commitBuf = sh0.commitBuf) :
+    CommitShape env w sh0 (newPhrase env sh) := by
+  unfold newPhrase
+  simp only
+  split
+  · cshape_leaf
+  · exact cshape_panic env _ _
+  · exact cshape_fuel env _
+
+theorem cshape_newPhraseSimple (sh0 sh : Shared D L) (hb : sh.commitBuf = sh0.commitBuf) :
+    CommitShape env w sh0 (newPhraseSimple sh) := by
+  unfold newPhraseSimple
+  simp only
+  split
+  · cshape_leaf
+  · exact cshape_panic env _ _
+  · exact cshape_fuel env _
+
+theorem cshape_newSpecialSymbol (sh0 sh : Shared D L) (hb : sh.commitBuf = sh0.commitBuf) (sym : Sym) :
+    CommitShape env w sh0 (newSpecialSymbol sh sym) := by
+  unfold newSpecialSymbol
+  simp only
+  split
+  · cshape_leaf
+  · cshape_leaf
+  · exact cshape_panic env _ _
+  · exact cshape_fuel env _
+
+theorem cshape_startSelecting (sh : Shared D L) : CommitShape env w sh (startSelecting env sh) := by
+  unfold startSelecting
+  repeat' split
+  all_goals first
+    | exact cshape_newPhrase env _ _ rfl
+    | exact cshape_newSpecialSymbol env _ _ rfl _
+    | cshape_leaf
+
+theorem cshape_startSelectingOrInputSpace (sh : Shared D L) :
+    CommitShape env w sh (startSelectingOrInputSpace env sh) := by
+  unfold startSelectingOrInputSpace
+  repeat' split
+  all_goals first
+    | exact cshape_newPhrase env _ _ rfl
+    | exact cshape_newSpecialSymbol env _ _ rfl _
+    | cshape_leaf
+    | skip
+  all_goals
+    intro sh' t h; injection h with h; injection h with h1 h2; subst h1 h2
+    exact Or.inr ⟨rfl, Or.inl ⟨by assumption, rfl, _, Or.inr rfl⟩⟩
+
+theorem learnInRangeQuiet_commitBuf (sh : Shared D L) (a b : Nat) :
+    OutAll (fun x => x.1.commitBuf = sh.commitBuf) (Shared.learnInRangeQuiet env sh a b) := by
+  unfold Shared.learnInRangeQuiet
+  repeat' (first | split | (dsimp only; split))
+  all_goals first | exact rfl | trivial
+
+theorem learnInRangeNotify_commitBuf (sh : Shared D L) (a b : Nat) :
+    OutAll (fun x => x.1.commitBuf = sh.commitBuf) (Shared.learnInRangeNotify env sh a b) := by
+  unfold Shared.learnInRangeNotify
+  split
+  · rename_i sh1 phrase hq; exact (learnInRangeQuiet_commitBuf env sh a b).elim hq
+  · rename_i sh1 msg hq; exact (learnInRangeQuiet_commitBuf env sh a b).elim hq
+  · trivial
+  · trivial
+
+theorem cshape_learnTrans (sh0 sh : Shared D L) (hb : sh.commitBuf = sh0.commitBuf) (a b : Nat) :
+    CommitShape env w sh0 (learnTrans (Shared.learnInRangeNotify env sh a b)) := by
+  unfold learnTrans
+  split
+  · rename_i sh1 okk hq
+    have hc := (learnInRangeNotify_commitBuf env sh a b).elim hq
+    intro sh' t h; injection h with h; injection h with h1 h2; subst h1 h2
+    exact Or.inl ⟨(fun c => by cases okk <;> cases c), by rw [hc, hb]⟩
+  · exact cshape_panic env _ _
+  · exact cshape_fuel env _
+
+theorem cshape_enteringDefault (sh : Shared D L) (ev : KeyEvent) :
+    CommitShape env w sh (enteringDefault env sh ev) := by
+  unfold enteringDefault
+  repeat' split
+  all_goals first
+    | exact cshape_withCom_absorb env _ _ rfl _
+    | exact cshape_inputChar env _ _ rfl rfl _
+    | exact cshape_chineseFallback env _ _ rfl rfl _
+    | exact cshape_chineseFallback env sh { sh with syl := (env.keyPress sh.syl ev).2 } rfl rfl ev
+    | cshape_leaf
+
+theorem cshape_enteringBackspace (sh : Shared D L) : CommitShape env w sh (enteringBackspace sh) := by
+  unfold enteringBackspace
+  split
+  · cshape_leaf
+  · exact cshape_withCom_absorb env _ _ rfl _
+
+theorem cshape_enteringCtrlDigit (sh : Shared D L) (c : Nat) : CommitShape env w sh (enteringCtrlDigit env sh c) := by
+  unfold enteringCtrlDigit
+  repeat' (first | split | (dsimp only; split))
+  all_goals first
+    | exact cshape_learnTrans env _ _ rfl _ _
+    | cshape_leaf
+
+theorem cshape_enteringTabInside (sh : Shared D L) : CommitShape env w sh (enteringTabInside env sh) := by
+  unfold enteringTabInside
+  repeat' split
+  all_goals first
+    | exact cshape_withCom_absorb env _ _ rfl _
+    | exact cshape_panic env _ _
+    | exact cshape_fuel env _
+
+theorem cshape_enteringDel (sh : Shared D L) : CommitShape env w sh (enteringDel sh) := by
+  unfold enteringDel
+  split
+  · cshape_leaf
+  · exact cshape_withCom_absorb env _ _ rfl _
+
+theorem cshape_enteringShiftLeft (sh : Shared D L) : CommitShape env w sh (enteringShiftLeft sh) := by
+  unfold enteringShiftLeft
+  split <;> cshape_leaf
+
+theorem cshape_enteringShiftRight (sh : Shared D L) : CommitShape env w sh (enteringShiftRight sh) := by
+  unfold enteringShiftRight
+  split <;> cshape_leaf
+
+theorem cshape_enteringEnter (sh : Shared D L) (hw : w) : CommitShape env w sh (enteringEnter env sh) := by
+  unfold enteringEnter
+  split
+  · rename_i sh1 hq
+    intro sh' t h; injection h with h; injection h with h1 h2; subst h1 h2
+    exact Or.inr ⟨rfl, Or.inr ⟨hw, hq⟩⟩
+  · exact cshape_panic env _ _
+  · exact cshape_fuel env _
+
+theorem cshape_enteringEsc (sh : Shared D L) : CommitShape env w sh (enteringEsc sh) := by
+  unfold enteringEsc
+  split <;> cshape_leaf
+
+theorem cshape_ite' {sh0 : Shared D L} {c : Prop} [Decidable c] {a b : StepRes D L}
+    (h1 : c → CommitShape env w sh0 a) (h2 : ¬c → CommitShape env w sh0 b) :
+    CommitShape env w sh0 (if c then a else b) := by
+  split
+  · exact h1 ‹_›
+  · exact h2 ‹_›
+
+/-- `Entering`: every arm; a whole-buffer commit only in the arm guarded by `code == Enter` -/
+theorem cshape_enteringNext (sh : Shared D L) (ev : KeyEvent) :
+    CommitShape env (ev.code = KC.enter) sh (enteringNext env sh ev) := by
+  unfold enteringNext
+  repeat' (with_reducible refine cshape_ite' env (fun _ => ?_) (fun _ => ?_))
+  all_goals first
+    | exact cshape_enteringBackspace env _
+    | exact cshape_enteringCtrlDigit env _ _
+    | exact cshape_enteringTabInside env _
+    | exact cshape_enteringDel env _
+    | exact cshape_enteringShiftLeft env _
+    | exact cshape_enteringShiftRight env _
+    | exact cshape_enteringEnter env _ (eq_of_beq ‹_›)
+    | exact cshape_enteringEsc env _
+    | exact cshape_commitOrInsert env _ _ rfl rfl _
+    | exact cshape_enteringDefault env _ _
+    | exact cshape_startSelecting env _
+    | exact cshape_startSelectingOrInputSpace env _
+    | cshape_leaf
+
+/-! the other three states never report *commit* and never write the commit buffer -/
+
+/-- a step result that does not report commit and leaves the commit buffer as in `b0` -/
+def NoCommit (b0 : Text) (r : StepRes D L) : Prop :=
+  ∀ sh' t, r = .ok (sh', t) → t ≠ .spin .commit ∧ sh'.commitBuf = b0
+
+macro "nocommit_leaf" : tactic =>
+  `(tactic| (intro sh' t h; injection h with h; injection h with h1 h2; subst h1 h2;
+             exact ⟨(fun c => by cases c), by first | rfl | assumption⟩))
+
+theorem nocommit_newPhraseSimple (sh : Shared D L) : NoCommit sh.commitBuf (newPhraseSimple sh) := by
+  unfold newPhraseSimple
+  simp only
+  split
+  · nocommit_leaf
+  · intro _ _ h; cases h
+  · intro _ _ h; cases h
+
+theorem nocommit_syllableAnswer (sh : Shared D L) (beh : LayoutBeh) :
+    NoCommit sh.commitBuf (syllableAnswer env sh beh) := by
+  unfold syllableAnswer
+  repeat' split
+  all_goals first
+    | nocommit_leaf
+    | skip
+  all_goals
+    unfold withCom
+    split
+    · first
+        | nocommit_leaf
+        | (dsimp only
+           split
+           · exact nocommit_newPhraseSimple _
+           · nocommit_leaf)
+    · intro _ _ h; cases h
+    · intro _ _ h; cases h
+
+/-- `EnteringSyllable`: never commit, commit buffer untouched -/
+theorem nocommit_enteringSyllableNext (sh : Shared D L) (ev : KeyEvent) :
+    NoCommit sh.commitBuf (enteringSyllableNext env sh ev) := by
+  unfold enteringSyllableNext
+  repeat' split
+  all_goals first
+    | exact nocommit_syllableAnswer env { sh with syl := (env.fuzzyKeyPress sh.syl ev).2 } _
+    | exact nocommit_syllableAnswer env { sh with syl := (env.keyPress sh.syl ev).2 } _
+    | nocommit_leaf
+
+/-- `Selecting::select` (digit keys and the API): never commit, commit buffer untouched -/
+theorem select_nocommit (s : Selecting) (sh : Shared D L) (n : Nat) :
+    OutAll (fun x => x.2.2 ≠ .spin .commit ∧ x.2.1.commitBuf = sh.commitBuf) (Selecting.select env s sh n) := by
+  unfold Selecting.select
+  repeat' (first | split | (dsimp only; split))
+  all_goals first
+    | trivial
+    | exact ⟨by simp, rfl⟩
+    | skip
+  all_goals
+    simp only [Outcome.map]
+    repeat' split
+    all_goals first
+      | trivial
+      | exact ⟨by simp, rfl⟩
+
+def NoCommitSel (b0 : Text) (r : Outcome (SelRes D L)) : Prop :=
+  ∀ x, r = .ok x → x.trans ≠ .spin .commit ∧ x.shared.commitBuf = b0
+
+macro "nocommitsel_leaf" : tactic =>
+  `(tactic| (intro x h; injection h with h; subst h; exact ⟨(fun c => by cases c), rfl⟩))
+
+theorem nocommitSel_ite {b0 : Text} {c : Prop} [Decidable c] {a b : Outcome (SelRes D L)}
+    (h1 : NoCommitSel b0 a) (h2 : NoCommitSel b0 b) : NoCommitSel b0 (if c then a else b) := by
+  split <;> assumption
+
+theorem nocommitSel_selDownSpace (s : Selecting) (sh : Shared D L) : NoCommitSel sh.commitBuf (selDownSpace env s sh) := by
+  unfold selDownSpace
+  repeat' split
+  all_goals first
+    | (intro _ h; cases h; done)
+    | nocommitsel_leaf
+
+theorem nocommitSel_selMove (s : Selecting) (sh : Shared D L) (isJ : Bool) :
+    NoCommitSel sh.commitBuf (selMove env s sh isJ) := by
+  unfold selMove
+  split
+  · nocommitsel_leaf
+  · dsimp only
+    have hr : ∀ (sh1 sh' : Shared D L) (t : Trans), retarget env s sh1 = .ok (sh', t) →
+        sh1.commitBuf = sh.commitBuf → sh'.commitBuf = sh.commitBuf := by
+      intro sh1 sh' t h h1
+      unfold retarget at h
+      repeat' split at h
+      all_goals first
+        | (cases h; done)
+        | (injection h with h; injection h with h2 h3; subst h2; exact h1)
+    split
+    · rename_i sh' s' hq
+      intro x h; injection h with h; subst h
+      exact ⟨(fun c => by cases c), hr _ _ _ hq rfl⟩
+    · rename_i sh' t hne hq
+      intro x h; injection h with h; subst h
+      exact ⟨(fun c => by cases c), hr _ _ _ hq rfl⟩
+    · intro _ h; cases h
+    · intro _ h; cases h
+
+theorem nocommitSel_selPrevPage (s : Selecting) (sh : Shared D L) : NoCommitSel sh.commitBuf (selPrevPage env s sh) := by
+  unfold selPrevPage
+  repeat' split
+  all_goals first
+    | (intro _ h; cases h; done)
+    | nocommitsel_leaf
+
+theorem nocommitSel_selNextPage (s : Selecting) (sh : Shared D L) : NoCommitSel sh.commitBuf (selNextPage env s sh) := by
+  unfold selNextPage
+  repeat' split
+  all_goals first
+    | (intro _ h; cases h; done)
+    | nocommitsel_leaf
+
+theorem nocommitSel_selDigit (s : Selecting) (sh : Shared D L) (c : Nat) :
+    NoCommitSel sh.commitBuf (selDigit env s sh c) := by
+  unfold selDigit
+  split
+  · rename_i s' sh' t hq
+    have h := (select_nocommit env s sh (c - 1)).elim hq
+    simp only at h
+    intro x hx; injection hx with hx; subst hx
+    exact h
+  · intro _ h; cases h
+  · intro _ h; cases h
+
+/-- `Selecting`: never commit, commit buffer untouched -/
+theorem nocommitSel_selectingNext (s : Selecting) (sh : Shared D L) (ev : KeyEvent) :
+    NoCommitSel sh.commitBuf (selectingNext env s sh ev) := by
+  unfold selectingNext
+  repeat' (with_reducible apply nocommitSel_ite)
+  all_goals first
+    | exact nocommitSel_selDownSpace env _ _
+    | exact nocommitSel_selMove env _ _ _
+    | exact nocommitSel_selPrevPage env _ _
+    | exact nocommitSel_selNextPage env _ _
+    | exact nocommitSel_selDigit env _ _ _
+    | nocommitsel_leaf
+
+/-- `Highlighting`: never commit, commit buffer untouched -/
+theorem highlighting_nocommit (m : Nat) (sh : Shared D L) (ev : KeyEvent) :
+    OutAll (fun x => x.2.2 ≠ .spin .commit ∧ x.1.commitBuf = sh.commitBuf) (highlightingNext env m sh ev) := by
+  unfold highlightingNext
+  repeat' (first | split | (dsimp only; split))
+  all_goals first
+    | trivial
+    | exact ⟨by simp, rfl⟩
+    | skip
+  all_goals
+    rename_i sh' b hq
+    exact ⟨by simp, (learnInRangeNotify_commitBuf env _ _ _).elim hq⟩
+
 end Chewing.C02
